@@ -466,6 +466,28 @@ def c16():
     )
 
 
+# ------------------------------------------------------------------------------------------- C20
+@prop('C20')
+def c20():
+    qs = []
+    i = 0
+    for eager in (0, 1):
+        for y in (0, 1, 2, 3):
+            for end in (0, 1, 2):
+                for calls in (1, 2):
+                    qs.append(Q('co_eager%d_y%d_end%d_calls%d' % (eager, y, end, calls), 'C20/co.cpp', 8, std='c++20',
+                                defs={'VF_EAGER': eager, 'VF_Y': y, 'VF_END': end, 'VF_CALLS': calls, 'VF_CLAIM': 20}, tv=(i % 6 == 0), timeout=600))
+                    i += 1
+    return dict(
+        queries=qs,
+        level='model_checking',
+        level_text='Bounded: for a harness-local coroutine type with lazy and with eager start, 0..3 CO_YIELD clauses, CO_RETURN(value) / CO_THROW / throwing CO_RETURN expression, one or two calls handled by the same expectation and resumed interleaved: matching, counting and SIDE_EFFECT happen at the call; the coroutine yields the clause values in declaration order, then the return value, or raises the exception where the result is taken and never at the call; the coroutines of two calls are independent; all 32-bit clause values; coroutine frames are heap objects under CBMC pointer checks.',
+        bound='clause lists with 0..3 CO_YIELD x 3 endings x eager/lazy x 1..2 calls (48 shapes); clause expressions touch the call arguments only where they are alive (first clause of an eager coroutine), per the documented lifetime caveat',
+        outside='generator-shaped (range) return types, std::generator (not in this libstdc++), void coroutines, CO_YIELD on move-only values',
+        assumptions=['C++20 lowering of coroutines by clang-14 (CoroSplit at -O1) is what is executed'],
+    )
+
+
 def queries(pid, tier, seed=1):
     global CUR_TIER, CUR_SEED
     CUR_TIER, CUR_SEED = tier, seed
